@@ -29,6 +29,17 @@ def main():
             na.append({"property_id": pid, "reason": "check not built yet in this revision of the framework (model, theorems and correspondence are planned in DESIGN.md section 5)"})
             continue
         m = importlib.import_module(f"props.{pid.lower()}")
+        fns = [t[3:] for t in getattr(m, "TABLES", []) if t.startswith("fn_")]
+        t1b_text = ""
+        t1b_note = ""
+        t1b_tech = ""
+        if fns:
+            t1b_text = (" T1b (translator, every run): the source functions " + ", ".join(fns) + " are translated from /repo's "
+                        "current text into Lean (Generated/Funcs.lean over PyLite.lean) and the theorems " + pid + "_source_* "
+                        "(source function = hand model / documented table) are re-checked against that text; an "
+                        "untranslatable or changed function is a broken tie or a broken proof.")
+            t1b_note = "; T1b trusts PyLite.lean (meaning of the translated Python fragment) and harness/funcs_from_source.py"
+            t1b_tech = " + source-to-Lean translation of the decision functions (" + ", ".join(fns) + ") re-proved on every run"
         checks.append({
             "property_id": pid,
             "quick_cmd": f"./check {pid} --tier quick",
@@ -38,11 +49,11 @@ def main():
             "engine": "lean-model+correspondence",
             "level_claimed": {
                 "category": "proof",
-                "text": m.LEVEL_TEXT,
+                "text": m.LEVEL_TEXT + t1b_text,
                 "design_ref": f"DESIGN.md section 5 {pid}",
             },
-            "level_note": getattr(m, "LEVEL_NOTE", "trusted: Lean kernel + propext/Classical.choice/Quot.sound, native driver, harness and T1 extractor, CPython as reference for the trusted fragments; the code is modelled, the correspondence check ties model to code"),
-            "technique": getattr(m, "TECHNIQUE", "Lean 4 proof about an executable model + checked differential correspondence with the implementation"),
+            "level_note": getattr(m, "LEVEL_NOTE", "trusted: Lean kernel + propext/Classical.choice/Quot.sound, native driver, harness and T1 extractor, CPython as reference for the trusted fragments; the code is modelled, the correspondence check ties model to code") + t1b_note,
+            "technique": getattr(m, "TECHNIQUE", "Lean 4 proof about an executable model + checked differential correspondence with the implementation") + t1b_tech,
         })
     doc = {
         "version": 1,
